@@ -899,7 +899,12 @@ class CallMixin:
             if found:
                 return V(elt_t, [t[1] for t in a.ty if t[0] == "elemty"], dep)
             if len(args) > 1:
-                return args[1].with_dep(dep)
+                # the default stands for "no element passed the conditions": whatever is decided on it depends on what they test
+                from .values import symbols as _symbols
+                cdep = set(dep) | set(a.dep)
+                for c in conds:
+                    cdep |= set(_symbols(c))
+                return args[1].with_dep(frozenset(cdep))
             self.raise_exc("StopIteration", node, explicit=False)
         if name in ("zip", "enumerate", "reversed", "sorted", "iter", "filter"):
             self._remember(args)
